@@ -90,6 +90,11 @@ func (cx *Ctx) runOp(rule string, spec opSpec) *opRun {
 	// inlined together with their loops, so that the events of a stage are seen wherever it lives; callees that are
 	// summarised as events are set below and stay summarised
 	stageHelpers := newHelpersOf(fn)
+	switch spec.kind {
+	case "set", "setIfAbsent", "compute", "computeIfAbsent", "computeIfPresent", "get", "getEntry", "loadInstall":
+		// what becomes of the duration a hook returned (C12.hook: applied unless non-positive / unchanged)
+		ps.alsoRelevant = append(ps.alsoRelevant, "dur:")
+	}
 	if spec.kind == "admitflow" {
 		ps.alsoRelevant = []string{"res:Admit#"}
 	}
